@@ -90,9 +90,12 @@ func ctxEndScenario(s *Sim, params map[string]string) {
 	case "client-stall", "client-dial":
 		tr := &kafka.Transport{Dial: n.Dialer("ce-client"), ClientID: "ce", DialTimeout: long, MetadataTTL: long, IdleTimeout: long}
 		client := &kafka.Client{Addr: kafka.TCP(addr), Transport: tr, Timeout: long}
-		api := t.Intn("cfg", 5)
-		if kind == "client-stall" {
+		api := t.Intn("cfg", 6)
+		if kind == "client-stall" && api < 5 {
 			stall([]int16{2, 0, 1, 9, 8}[api])
+		}
+		if kind == "client-dial" && api == 5 {
+			api = 0
 		}
 		warm := kind == "client-stall" || t.Intn("cfg", 2) == 0
 		na := t.Range("cfg", 1, 4)
@@ -102,6 +105,11 @@ func ctxEndScenario(s *Sim, params map[string]string) {
 				ctx, cancel := context.WithTimeout(context.Background(), 5*time.Second)
 				client.Metadata(ctx, &kafka.MetadataRequest{Topics: []string{"ce"}})
 				cancel()
+			}
+			if api == 5 {
+				// CreateTopics is answered; the metadata refresh the transport
+				// forces right after it is not
+				stall(3)
 			}
 			if kind == "client-dial" {
 				for _, b := range cl.Brokers {
@@ -130,6 +138,9 @@ func ctxEndScenario(s *Sim, params map[string]string) {
 					case 3:
 						c.what = "Client.OffsetFetch"
 						_, err = client.OffsetFetch(ctx, &kafka.OffsetFetchRequest{GroupID: "ceg", Topics: map[string][]int{"ce": {0, 1}}})
+					case 5:
+						c.what = "Client.CreateTopics (waiting for the metadata refresh that follows)"
+						_, err = client.CreateTopics(ctx, &kafka.CreateTopicsRequest{Topics: []kafka.TopicConfig{{Topic: fmt.Sprintf("created-%d", a), NumPartitions: 1, ReplicationFactor: 1}}})
 					default:
 						c.what = "Client.OffsetCommit"
 						_, err = client.OffsetCommit(ctx, &kafka.OffsetCommitRequest{GroupID: "ceg", GenerationID: -1, Topics: map[string][]kafka.OffsetCommit{"ce": {{Partition: 0, Offset: 1}}}})
